@@ -2,7 +2,8 @@
 // HashMap<String, V>::get(&str) through its abstract map; Result<&T, E>::cloned as a structural copy
 // (options::Value derives Clone).  ConfiguredPlugin is a mirror with the real field name
 // `option_values` and its real type (the other fields -- streams, callbacks -- are not read here).
-pub struct HashMap<K, V> { pub _p: core::marker::PhantomData<(K, V)> }
+// `id`: ghost identity (a struct of PhantomData only would be single-valued: any two values provably equal)
+pub struct HashMap<K, V> { pub _p: core::marker::PhantomData<(K, V)>, pub id: Ghost<int> }
 impl<V> HashMap<String, V> {
     pub uninterp spec fn view(&self) -> Map<Seq<char>, V>;
     #[verifier::external_body]
